@@ -26,6 +26,8 @@ def hint_shape(h, depth=0):
         kids = [h[2], h[3]]
     elif t == 'counter':
         kids = [h[1]]
+    elif t == 'annot':
+        kids = [h[1]]
     d = 1 + max([hint_shape(k)[0] for k in kids], default=0)
     signs = [t + (':' + h[1] if t in ('cont', 'map') else '')]
     for k in kids:
@@ -78,7 +80,7 @@ def evaluate(ctx, tag, cases, observed):
 def model_outputs(ctx, tag, case, draw):
     """what the model computes for one case (for replay files)"""
     text = HEADER + ('Definition k := %s.\n' % coq_case(case, draw, {'verdict': 'T', 'trace': []}, None) +
-                     'Eval vm_compute in (model_verdict k, sat (k_hint k) (k_val k), '
+                     'Eval vm_compute in (model_verdict k, sat pb_table (k_hint k) (k_val k), '
                      'tokens %s (trace_of (k_draw k) no_preds (check_expr {| is_random := k_random k |} (k_hint k)) (k_val k))).\n'
                      % coq_list(['c_' + c for c in IR.SPIED]))
     path = os.path.join(ctx.workdir, f'core_show_{tag}.v')
@@ -149,3 +151,19 @@ def record_distribution(ctx, cases, observed):
         ctx.count('sat' if res.get('sat') else 'unsat')
         for per in res.get('runs', []):
             ctx.count('verdict:' + per['is_bearable']['verdict'].split(':')[0])
+
+
+def load_corpus():
+    """minimised past failures of the shared core, replayed first on every run"""
+    from harness.common import VERIF
+    d = os.path.join(VERIF, 'corpus', 'core')
+    out = []
+    if os.path.isdir(d):
+        for f in sorted(os.listdir(d)):
+            if f.endswith('.json'):
+                with open(os.path.join(d, f)) as fh:
+                    c = json.load(fh)
+                c.setdefault('entries', ['is_bearable'])
+                c['corpus'] = f
+                out.append(c)
+    return out
